@@ -13,6 +13,7 @@ R09.4  interface: five methods per factory class, can_launch returns a pair on
 """
 
 import ast
+import re
 import operator
 
 from ..model import (walk, dotted, call_name, kwarg, unparse, short, UNKNOWN,
@@ -94,7 +95,9 @@ def const_key(n):
             isinstance(n.args[0].value, str):
         return n.args[0].value
     # Slot / TaskDescription are TypedDicts: slot.node_name == slot['node_name']
-    if isinstance(n, ast.Attribute) and n.attr in ATTR_KEYS:
+    # (self.node_name is the launcher's own host name, not a slot's)
+    if isinstance(n, ast.Attribute) and n.attr in ATTR_KEYS and \
+            not (isinstance(n.value, ast.Name) and n.value.id == 'self'):
         return n.attr
     return None
 
@@ -1150,6 +1153,487 @@ def prepare(prog, rep, rid):
 
 
 # ------------------------------------------------------------------------------
+# R09.5  node collections name every node once
+#
+# options whose value is one entry per *node* (a count of nodes, or a list
+# which must name each node once).  Option semantics are flavour knowledge;
+# the table is only used to decide that a plain per-slot list is the wrong
+# thing to feed them - a collection the code itself de-duplicates is checked
+# whatever option it feeds.
+NODE_OPTS = re.compile(r'(--nodes|--nodelist|--nodefile|(?<![\w-])-N|'
+                       r'(?<![\w-])-w)[ =]*$')
+
+DISTINCT, ADJACENT, PER_SLOT = 'distinct', 'adjacent-only', 'per-slot'
+
+
+def reads_place(e):
+    return any(const_key(n) in PLACE_KEYS for n in walk(e, nested=True))
+
+
+def single_def(f, name):
+    vals = [n.value for n in walk(f.node, nested=True)
+            if isinstance(n, ast.Assign) and
+            any(isinstance(t, ast.Name) and t.id == name for t in n.targets)]
+    return vals[0] if len(vals) == 1 else None
+
+
+def is_sorted_seq(f, e, _seen=()):
+    """e is a sequence in sorted order: sorted(..), or a local bound once to
+    sorted(..) / on which .sort() is called"""
+    if isinstance(e, ast.Call) and dotted(e.func) == 'sorted':
+        return True
+    if isinstance(e, ast.Name) and e.id not in _seen:
+        for c in calls_in(f.node, nested=True):
+            if isinstance(c.func, ast.Attribute) and c.func.attr == 'sort' \
+                    and isinstance(c.func.value, ast.Name) and \
+                    c.func.value.id == e.id:
+                return True
+        v = single_def(f, e.id)
+        return v is not None and is_sorted_seq(f, v, _seen + (e.id,))
+    return False
+
+
+def groupby_call(e):
+    return isinstance(e, ast.Call) and \
+        dotted(e.func).split('.')[-1] == 'groupby' and e.args
+
+
+def classify_nodes(f, e, _seen=()):
+    """how the node collection built by expression e treats a node which
+    occurs in several slots: DISTINCT (named once whatever the slot order),
+    ADJACENT (named once per run of adjacent slots), PER_SLOT (once per slot),
+    None (not recognised as a collection of nodes)"""
+    if isinstance(e, (ast.SetComp, ast.DictComp, ast.Set)):
+        return DISTINCT
+    if isinstance(e, ast.Call):
+        d = dotted(e.func)
+        last = d.split('.')[-1]
+        if d in ('set', 'frozenset') or last in ('fromkeys', 'unique',
+                                                 'Counter'):
+            return DISTINCT
+        if groupby_call(e):
+            return DISTINCT if is_sorted_seq(f, e.args[0]) else ADJACENT
+        if d in ('sorted', 'list', 'tuple', 'reversed') and e.args:
+            return classify_nodes(f, e.args[0], _seen)
+        if isinstance(e.func, ast.Attribute) and e.func.attr in ('keys',
+                                                                 'copy'):
+            return classify_nodes(f, e.func.value, _seen)
+        return None
+    if isinstance(e, (ast.ListComp, ast.GeneratorExp)):
+        it = e.generators[0].iter
+        if groupby_call(it):
+            return DISTINCT if is_sorted_seq(f, it.args[0]) else ADJACENT
+        inner = classify_nodes(f, it, _seen)
+        if inner in (DISTINCT, ADJACENT) and len(e.generators) == 1:
+            return inner
+        if any(g.ifs for g in e.generators):
+            return None
+        return PER_SLOT
+    if isinstance(e, ast.Name) and e.id not in _seen:
+        return classify_name(f, e.id, _seen + (e.id,))
+    return None
+
+
+def classify_name(f, name, _seen=()):
+    """classification of a local by the way it is built"""
+    g = cfg_of(f)
+    smap = I.stmt_node_map(g)
+    kinds = []
+    defs = [n.value for n in walk(f.node, nested=True)
+            if isinstance(n, ast.Assign) and
+            any(isinstance(t, ast.Name) and t.id == name for t in n.targets)]
+    empty_set = any(isinstance(v, ast.Call) and dotted(v.func) in
+                    ('set', 'frozenset') and not v.args for v in defs)
+    is_map = any((isinstance(v, ast.Dict) and not v.keys) or
+                 (isinstance(v, ast.Call) and dotted(v.func).split('.')[-1] in
+                  ('dict', 'defaultdict', 'OrderedDict', 'Counter'))
+                 for v in defs)
+    for v in defs:
+        if reads_place(v) or (isinstance(v, ast.Name)):
+            k = classify_nodes(f, v, _seen)
+            if k:
+                kinds.append(k)
+    for n in walk(f.node, nested=True):
+        # d[<node>] = .. / d[<node>] += ..
+        t = None
+        if isinstance(n, ast.Assign):
+            t = [x for x in n.targets if isinstance(x, ast.Subscript)]
+        elif isinstance(n, ast.AugAssign) and \
+                isinstance(n.target, ast.Subscript):
+            t = [n.target]
+        for x in t or ():
+            if isinstance(x.value, ast.Name) and x.value.id == name and \
+                    reads_place_or_local(f, x.slice) and is_map:
+                kinds.append(DISTINCT)
+        if isinstance(n, ast.Call) and isinstance(n.func, ast.Attribute) and \
+                isinstance(n.func.value, ast.Name) and \
+                n.func.value.id == name and n.args and \
+                reads_place_or_local(f, n.args[0]):
+            if n.func.attr == 'add' and empty_set:
+                kinds.append(DISTINCT)
+            elif n.func.attr == 'append':
+                cn = smap.get(id(n))
+                guarded = False
+                if cn is not None:
+                    for tid, lab in guards(g, cn.id):
+                        a = g.nodes[tid].ast
+                        if isinstance(a, ast.Compare) and len(a.ops) == 1 and \
+                                ((isinstance(a.ops[0], ast.NotIn) and
+                                  lab == 'T') or
+                                 (isinstance(a.ops[0], ast.In) and
+                                  lab == 'F')) and \
+                                unparse(a.left) == unparse(n.args[0]):
+                            guarded = True
+                kinds.append(DISTINCT if guarded else PER_SLOT)
+    if not kinds:
+        return None
+    for k in (ADJACENT, PER_SLOT, DISTINCT):
+        if k in kinds:
+            return k
+
+
+def reads_place_or_local(f, e):
+    """e is a node name / index of a slot (directly or through a local bound
+    once to one)"""
+    if reads_place(e):
+        return True
+    if isinstance(e, ast.Name):
+        v = single_def(f, e.id)
+        return v is not None and reads_place(v)
+    return False
+
+
+def count_or_list_of(f, e, _seen=()):
+    """the collection Y of `len(Y)` / `sep.join(Y)` in e (through locals)"""
+    out = []
+    if isinstance(e, ast.Call):
+        if isinstance(e.func, ast.Name) and e.func.id == 'len' and e.args:
+            out.append(e.args[0])
+        elif isinstance(e.func, ast.Attribute) and e.func.attr == 'join' \
+                and e.args:
+            out.append(e.args[0])
+    elif isinstance(e, ast.Name) and e.id not in _seen:
+        for n in walk(f.node, nested=True):
+            if isinstance(n, ast.Assign) and any(
+                    isinstance(t, ast.Name) and t.id == e.id
+                    for t in n.targets):
+                out += count_or_list_of(f, n.value, _seen + (e.id,))
+    return out
+
+
+def fmt_placeholders(fmt):
+    out = []
+    pos = 0
+    for m in re.finditer(r'%(?:\([^)]*\))?[-#0 +]*\d*(?:\.\d+)?[sdrfi]', fmt):
+        out.append(fmt[pos:m.start()])
+        pos = m.end()
+    return out
+
+
+def r09_5(prog, rep, classes, rid='R09.5', minimum=13, floor=5):
+    rep.rule(rid, 'a collection of nodes which a launcher derives from the '
+             'slots and which must name each node once (it is built by a '
+             'de-duplicating construct, or feeds a node count / node list '
+             'option) is distinct by construction: set, dict keys, '
+             'dict.fromkeys, `not in` guarded append, groupby over a sorted '
+             'sequence - whatever the order of the slots', minimum=minimum)
+    total = 0
+
+    class Col:
+        """collects the constructs of one class: one obligation per class
+        (so that the count does not depend on how many collections a launcher
+        happens to build), one finding per offending construct"""
+        def __init__(self):
+            self.n, self.bad = 0, 0
+
+        def check(self, cond, rid, where, what, **kw):
+            self.n += 1
+            if not cond:
+                self.bad += 1
+                rep.bad(rid, where, kw['construct'], kw['message'],
+                        kw.get('loc'), history=kw.get('history'))
+
+    for K in classes:
+        f0 = prog.find_method(K, 'get_launch_cmds')
+        col = Col()
+        if f0 is None or always_raises(f0):
+            rep.ok(rid, K, '%s: builds no command' % K.name)
+            continue
+        G = Graph(prog, K, ['get_launch_cmds'])
+        used = G.closure([('RET', f0.where), ('FILE', '')])
+        for w in sorted(G.funcs):
+            f = G.funcs[w]
+            if not reads_place(f.node):
+                continue
+            rep.saw(f)
+            seen = set()
+            # (a) collections the code itself reduces to nodes
+            names = set()
+            for n in walk(f.node, nested=True):
+                if isinstance(n, ast.Assign):
+                    names |= {t.id for t in n.targets
+                              if isinstance(t, ast.Name)}
+            for name in sorted(names):
+                k = classify_name(f, name)
+                if k in (None, PER_SLOT):
+                    continue
+                seen.add(name)
+                live = (w, name) in used
+                col.check(k == DISTINCT or not live, rid, f,
+                          '%s: node collection `%s` is distinct by '
+                          'construction' % (K.name, name),
+                          construct='%s:nodes:%s' % (K.name, name),
+                          message='%s.%s builds `%s` from the node names of '
+                          'the slots with itertools.groupby over an unsorted '
+                          'sequence: only adjacent duplicates are merged, a '
+                          'node whose slots are not listed next to each other '
+                          'is named (and counted) several times in the '
+                          'command' % (K.name, f.name, name),
+                          loc=f.loc(),
+                          history='4 ranks placed round robin on nodes a,b,a,b'
+                          ': the command asks for 4 nodes and names a,b,a,b '
+                          'although the placement spans 2 nodes')
+            # groupby used without binding the result to a name
+            for n in walk(f.node, nested=True):
+                if not isinstance(n, (ast.For, ast.comprehension)):
+                    continue
+                if not groupby_call(n.iter) or not \
+                        reads_place_or_local_seq(f, n.iter.args[0]):
+                    continue
+                tg = set(stores_in_target(n.target))
+                if tg & seen:
+                    continue
+                owner = enclosing_assign_names(f, n)
+                if owner & seen:
+                    continue
+                okg = is_sorted_seq(f, n.iter.args[0])
+                live = any((w, x) in used for x in tg | owner) or \
+                    not (tg | owner)
+                col.check(okg or not live, rid, f,
+                          '%s: groupby over the slots\' nodes runs on a '
+                          'sorted sequence' % K.name,
+                          construct='%s:groupby' % K.name,
+                          message='%s.%s groups the node names of the slots '
+                          'with itertools.groupby over an unsorted sequence: '
+                          'a node whose slots are not adjacent forms several '
+                          'groups and is named several times'
+                          % (K.name, f.name), loc=f.loc(n.iter),
+                          history='ranks placed on a,b,a: the command lists '
+                          'a:1,b:1,a:1')
+            # (b) node count / node list options
+            for n in walk(f.node, nested=True):
+                if not (isinstance(n, ast.BinOp) and isinstance(n.op, ast.Mod)
+                        and isinstance(n.left, ast.Constant) and
+                        isinstance(n.left.value, str)):
+                    continue
+                pre = fmt_placeholders(n.left.value)
+                vals = n.right.elts if isinstance(n.right, ast.Tuple) \
+                    else [n.right]
+                if len(pre) != len(vals):
+                    continue
+                for txt, v in zip(pre, vals):
+                    m = NODE_OPTS.search(txt)
+                    if not m:
+                        continue
+                    for y in count_or_list_of(f, v):
+                        k = classify_nodes(f, y)
+                        if k is None:
+                            continue
+                        col.check(k == DISTINCT, rid, f,
+                                  '%s: `%s` is fed by a collection which '
+                                  'names each node once' % (K.name,
+                                                            m.group(1)),
+                                  construct='%s:%s' % (K.name, m.group(1)),
+                                  message='%s.%s feeds `%s` from `%s`, which '
+                                  'has one entry %s: a node which holds '
+                                  'several ranks is counted / listed several '
+                                  'times' % (K.name, f.name, m.group(1),
+                                             short(y, 40),
+                                             'per slot' if k == PER_SLOT else
+                                             'per run of adjacent slots'),
+                                  loc=f.loc(n),
+                                  history='2 ranks on node a, 2 on node b '
+                                  '(listed a,b,a,b): `%s` is computed for 4 '
+                                  'nodes' % m.group(1))
+        total += col.n
+        if not col.bad:
+            rep.ok(rid, f0, '%s: %d node collection(s) / node options derived '
+                   'from the slots, all distinct by construction'
+                   % (K.name, col.n), f0.loc())
+    rep.stat('R09.5 constructs', total)
+    if total < floor:
+        raise AnalysisError('R09.5 recognised only %d node collections / node '
+                            'options in all launchers (expected >= %d): the '
+                            'recogniser no longer sees how the launchers '
+                            'build their node lists' % (total, floor))
+
+
+def reads_place_or_local_seq(f, e, _seen=()):
+    if reads_place(e):
+        return True
+    if isinstance(e, ast.Call) and e.args:
+        return reads_place_or_local_seq(f, e.args[0], _seen)
+    if isinstance(e, ast.Name) and e.id not in _seen:
+        v = single_def(f, e.id)
+        return v is not None and reads_place_or_local_seq(f, v,
+                                                           _seen + (e.id,))
+    return False
+
+
+def enclosing_assign_names(f, node):
+    """names bound by the assignment whose value contains `node`"""
+    for n in walk(f.node, nested=True):
+        if isinstance(n, ast.Assign) and any(m is node for m in
+                                             walk(n.value, nested=True)):
+            out = set()
+            for t in n.targets:
+                out |= set(stores_in_target(t))
+            return out
+    return set()
+
+
+# ------------------------------------------------------------------------------
+# R09.6  launchers which name no node accept only the local node, exactly
+#
+INEXACT_CALLS = {'startswith', 'endswith', 'find', 'rfind', 'index', 'count',
+                 'match', 'search', 'fnmatch', 'partition'}
+
+
+def str_attr(prog, K, attr):
+    """'str' / 'coll' / None: what self.<attr> holds, from its assignments"""
+    kinds = set()
+    for k in prog.mro(K):
+        for m in k.methods.values():
+            for n in walk(m.node, nested=True):
+                tgt, val, ann = None, None, None
+                if isinstance(n, ast.Assign):
+                    tgt, val = n.targets, n.value
+                elif isinstance(n, ast.AnnAssign):
+                    tgt, val, ann = [n.target], n.value, n.annotation
+                for t in tgt or ():
+                    if not (isinstance(t, ast.Attribute) and
+                            isinstance(t.value, ast.Name) and
+                            t.value.id == 'self' and t.attr == attr):
+                        continue
+                    if ann is not None and unparse(ann) == 'str':
+                        kinds.add('str')
+                    elif isinstance(val, (ast.List, ast.Tuple, ast.Set,
+                                          ast.ListComp, ast.SetComp)) or \
+                            (isinstance(val, ast.Call) and dotted(val.func)
+                             in ('set', 'list', 'tuple', 'frozenset')):
+                        kinds.add('coll')
+                    elif isinstance(val, (ast.JoinedStr, ast.BoolOp, ast.BinOp,
+                                          ast.Constant)) and any(
+                            isinstance(c, ast.Constant) and
+                            isinstance(c.value, str)
+                            for c in walk(val)):
+                        kinds.add('str')
+    if len(kinds) == 1:
+        return kinds.pop()
+    return None
+
+
+def locality_edges(prog, K, f):
+    """(exact: [(test id, label taken when the names are equal)],
+        inexact: [test ast]) among the tests of f on the slot's node name"""
+    g = cfg_of(f)
+    d = PDeps(f.node)
+
+    def placey(e):
+        return any(x.startswith('@place') for x in d.expr_depends(e))
+
+    exact, inexact = [], []
+    for t in g.nodes:
+        if t.kind != 'test':
+            continue
+        a = t.ast
+        if isinstance(a, ast.Compare) and len(a.ops) == 1:
+            l, r, op = a.left, a.comparators[0], a.ops[0]
+            pl, pr = placey(l), placey(r)
+            if not (pl or pr):
+                continue
+            if isinstance(op, (ast.Eq, ast.NotEq)):
+                if pl and pr:
+                    continue
+                exact.append((t.id, 'T' if isinstance(op, ast.Eq) else 'F'))
+            elif isinstance(op, (ast.In, ast.NotIn)):
+                kind = None
+                if pl and not pr:
+                    if isinstance(r, (ast.List, ast.Tuple, ast.Set)):
+                        kind = 'coll'
+                    elif isinstance(r, ast.Constant) and \
+                            isinstance(r.value, str):
+                        kind = 'str'
+                    elif isinstance(r, ast.Attribute) and \
+                            isinstance(r.value, ast.Name) and \
+                            r.value.id == 'self':
+                        kind = str_attr(prog, K, r.attr)
+                    elif isinstance(r, ast.Name):
+                        v = single_def(f, r.id)
+                        if isinstance(v, (ast.List, ast.Tuple, ast.Set)) or (
+                                isinstance(v, ast.Call) and dotted(v.func) in
+                                ('set', 'list', 'tuple', 'frozenset')):
+                            kind = 'coll'
+                    if kind is None:
+                        raise AnalysisError(
+                            'UNRECOGNISED-IDIOM %s: cannot tell whether `%s` '
+                            'is a test against a collection of names or a '
+                            'substring test' % (f.where, short(a, 60)))
+                else:
+                    kind = 'str'          # <something> in <node name>
+                if kind == 'coll':
+                    exact.append((t.id, 'T' if isinstance(op, ast.In)
+                                  else 'F'))
+                else:
+                    inexact.append(a)
+            else:
+                inexact.append(a)
+        elif isinstance(a, ast.Call) and isinstance(a.func, ast.Attribute) \
+                and a.func.attr in INEXACT_CALLS and (
+                    placey(a.func.value) or any(placey(x) for x in a.args)):
+            inexact.append(a)
+    return g, exact, inexact
+
+
+def r09_6(prog, rep, classes, rid='R09.6', minimum=1):
+    rep.rule(rid, 'a launcher whose command names no node (the exec script '
+             'starts where the agent runs) accepts a task only after an exact '
+             'comparison (==, !=, in / not in a collection of names) of the '
+             'slot\'s node name with the local node name(s)', minimum=minimum)
+    for K in classes:
+        f = prog.find_method(K, 'get_launch_cmds')
+        if f is None or always_raises(f) or K.name in DELEGATING or \
+                not passes_through(f, exec_param(f)):
+            continue
+        cl = prog.find_method(K, 'can_launch')
+        if cl is None or is_stub(cl):
+            continue
+        rep.saw(cl)
+        g, exact, inexact = locality_edges(prog, K, cl)
+        rets = [n for n in g.stmt_nodes() if n.kind == 'stmt' and
+                isinstance(n.ast, ast.Return) and not refusing_return(n.ast)]
+        r = g.reachable(g.entry.id, skip_edges=exact)
+        leak = [n for n in rets if n.id in r]
+        rep.check(not leak, rid, cl,
+                  '%s.can_launch: every accepting return is reached only '
+                  'through an exact match of the slot\'s node name with a '
+                  'local name (%d exact tests)' % (K.name, len(exact)),
+                  construct='%s:locality' % K.name,
+                  message='%s.get_launch_cmds names no node, and '
+                  '%s.can_launch accepts a task on a path which takes no '
+                  'exact comparison of the slot\'s node name with the local '
+                  'node name%s: a task placed on another node is accepted '
+                  'and started on the agent node'
+                  % (K.name, K.name,
+                     ' (`%s` is a prefix / substring test, not equality)'
+                     % short(inexact[0], 60) if inexact else ''),
+                  loc=cl.loc(inexact[0]) if inexact else cl.loc(),
+                  history='agent on node `nid0012`, task placed on node '
+                  '`nid001`: the name test passes, the task is started by '
+                  'FORK on nid0012 while its cores on nid001 stay reserved')
+
+
+# ------------------------------------------------------------------------------
 #
 def run(prog, rep, tier):
     rep.decided = ('launcher purity: no attribute of the launcher object that '
@@ -1185,6 +1669,8 @@ def run(prog, rep, tier):
     r09_2(prog, rep, classes)
     r09_3(prog, rep, classes)
     r09_4(prog, rep, classes)
+    r09_5(prog, rep, classes)
+    r09_6(prog, rep, classes)
     if tier == 'thorough':
         base = prog.cls(*LM_BASE)
         extra = [k for k in prog.subclasses(base, strict=True)
@@ -1354,4 +1840,48 @@ SILENT = [
     dict(name='can_launch answer through a local', edits=[
         (_L + 'ccmrun.py', "        if not task['description']['executable']:\n            return False, 'no executable'\n\n        return True, ''\n",
          "        ret = True, ''\n        if not task['description']['executable']:\n            ret = False, 'no executable'\n\n        return ret\n")]),
+]
+
+MUTATIONS += [
+    dict(name='R09.5 srun de-duplicates the node list with groupby (seed C09-a)', rules=('R09.5',), edits=[
+        (_L + 'srun.py', "import signal\n", "import signal\nimport itertools\n"),
+        (_L + 'srun.py', "            nodelist = set([str(slot['node_name']) for slot in slots])\n",
+         "            nodelist = [name for name, _ in itertools.groupby(\n                                    [str(slot['node_name']) for slot in slots])]\n")]),
+    dict(name='R09.5 srun groupby over a list kept in a local', rules=('R09.5',), edits=[
+        (_L + 'srun.py', "import signal\n", "import signal\nimport itertools\n"),
+        (_L + 'srun.py', "            nodelist = set([str(slot['node_name']) for slot in slots])\n",
+         "            names    = [str(slot['node_name']) for slot in slots]\n            nodelist = [k for k, _ in itertools.groupby(names)]\n")]),
+    dict(name='R09.5 srun counts one node per slot', rules=('R09.5',), edits=[
+        (_L + 'srun.py', "            nodelist = set([str(slot['node_name']) for slot in slots])\n",
+         "            nodelist = [str(slot['node_name']) for slot in slots]\n")]),
+    dict(name='R09.5 prte per-host rank counts by groupby on slot order', rules=('R09.5',), edits=[
+        (_L + 'prte.py', "import collections\n", "import collections\nimport itertools\n"),
+        (_L + 'prte.py', "            ranks = collections.defaultdict(int)\n            for slot in slots:\n                ranks[slot['node_name']] += 1\n            flags += ' --host ' + ','.join(['%s:%s' % x for x in ranks.items()])\n",
+         "            names  = [slot['node_name'] for slot in slots]\n            flags += ' --host ' + ','.join(['%s:%d' % (n, len(list(g)))\n                                            for n, g in itertools.groupby(names)])\n")]),
+    dict(name='R09.6 fork accepts a prefix of its host name (seed C09-b)', rules=('R09.6',), edits=[
+        (_L + 'fork.py', "        if node not in ['localhost', self.node_name]:", "        if node != 'localhost' and not self.node_name.startswith(node):")]),
+    dict(name='R09.6 fork accepts a node name its host name ends with', rules=('R09.6',), edits=[
+        (_L + 'fork.py', "        if node not in ['localhost', self.node_name]:", "        if node != 'localhost' and not self.node_name.endswith(node):")]),
+    dict(name='R09.6 fork tests the node name as a substring of its host name', rules=('R09.6',), edits=[
+        (_L + 'fork.py', "        if node not in ['localhost', self.node_name]:", "        if node != 'localhost' and node not in self.node_name:")]),
+    dict(name='R09.6 fork locality test only for multi-core tasks', rules=('R09.6',), edits=[
+        (_L + 'fork.py', "        if node not in ['localhost', self.node_name]:", "        if task['description']['cores_per_rank'] > 1 and \\\n                node not in ['localhost', self.node_name]:")]),
+]
+
+SILENT += [
+    dict(name='srun node list as sorted(set(..))', edits=[
+        (_L + 'srun.py', "            nodelist = set([str(slot['node_name']) for slot in slots])\n", "            nodelist = sorted(set(str(slot['node_name']) for slot in slots))\n")]),
+    dict(name='srun node list by dict.fromkeys (order preserving)', edits=[
+        (_L + 'srun.py', "            nodelist = set([str(slot['node_name']) for slot in slots])\n", "            nodelist = list(dict.fromkeys(str(slot['node_name']) for slot in slots))\n")]),
+    dict(name='srun node list by a loop guarded with `not in`', edits=[
+        (_L + 'srun.py', "            nodelist = set([str(slot['node_name']) for slot in slots])\n", "            for slot in slots:\n                name = str(slot['node_name'])\n                if name not in nodelist:\n                    nodelist.append(name)\n")]),
+    dict(name='srun node list by groupby over the sorted names', edits=[
+        (_L + 'srun.py', "import signal\n", "import signal\nimport itertools\n"),
+        (_L + 'srun.py', "            nodelist = set([str(slot['node_name']) for slot in slots])\n", "            names    = sorted(str(slot['node_name']) for slot in slots)\n            nodelist = [k for k, _ in itertools.groupby(names)]\n")]),
+    dict(name='fork locality test as two equalities', edits=[
+        (_L + 'fork.py', "        if node not in ['localhost', self.node_name]:", "        if not (node == 'localhost' or node == self.node_name):")]),
+    dict(name='fork locality test against a tuple, accepting branch nested', edits=[
+        (_L + 'fork.py', "        if node not in ['localhost', self.node_name]:\n            return False, 'not on localhost'\n", "        if node in ('localhost', self.node_name):\n            pass\n        else:\n            return False, 'not on localhost'\n")]),
+    dict(name='fork locality test against a set kept in a local', edits=[
+        (_L + 'fork.py', "        if node not in ['localhost', self.node_name]:", "        local = {'localhost', self.node_name}\n        if node not in local:")]),
 ]
